@@ -8,3 +8,24 @@ package neuronjson
 //@   prop C02
 //@   requires d != nil && d.Data != nil
 //@   ensures result == ((tolower(action) == "post" || tolower(action) == "put" || tolower(action) == "delete") && !(endpoint == "query" && tolower(action) == "post"))
+
+// ---- the in-memory list of body ids (C16): sorted, duplicate-free, and equal to the key set ----
+
+//@ spec func idsSorted(s []uint64) bool = forall a int, b int :: {s[a]} {s[b]} 0 <= a && a < b && b < len(s) ==> s[a] < s[b]
+
+//@ func memdb.deleteBodyID
+//@   prop C16
+//@   requires mdb != nil && idsSorted(mdb.ids)
+//@   modifies mdb.ids, mdb.ids[*]
+//@   assert at "if i == len(mdb.ids) || mdb.ids[i] != bodyid {": (forall k int :: {mdb.ids[k]} 0 <= k && k < i ==> mdb.ids[k] < bodyid) && (forall k int :: {mdb.ids[k]} i < k && k < len(mdb.ids) ==> mdb.ids[k] > bodyid)
+//@   ensures forall k int :: 0 <= k && k < len(mdb.ids) ==> mdb.ids[k] != bodyid
+//@   ensures (forall k int :: 0 <= k && k < len(old(mdb.ids)) ==> old(mdb.ids[k]) != bodyid) ==> len(mdb.ids) == len(old(mdb.ids)) && (forall k int :: 0 <= k && k < len(mdb.ids) ==> mdb.ids[k] == old(mdb.ids[k]))
+//@   ensures forall p int :: 0 <= p && p < len(old(mdb.ids)) && old(mdb.ids[p]) == bodyid ==> len(mdb.ids) == len(old(mdb.ids)) - 1 && (forall k int :: 0 <= k && k < p ==> mdb.ids[k] == old(mdb.ids[k])) && (forall k int :: p <= k && k < len(mdb.ids) ==> mdb.ids[k] == old(mdb.ids[k+1]))
+
+//@ func memdb.addBodyID
+//@   prop C16
+//@   requires mdb != nil && idsSorted(mdb.ids)
+//@   modifies mdb.ids, heap E:uint64
+//@   assert at "if i < len(mdb.ids) && mdb.ids[i] == bodyid {": (forall k int :: {mdb.ids[k]} 0 <= k && k < i ==> mdb.ids[k] < bodyid) && (forall k int :: {mdb.ids[k]} i <= k && k < len(mdb.ids) ==> mdb.ids[k] >= bodyid)
+//@   ensures (exists p int :: 0 <= p && p < len(old(mdb.ids)) && old(mdb.ids[p]) == bodyid) ==> len(mdb.ids) == len(old(mdb.ids)) && (forall k int :: 0 <= k && k < len(mdb.ids) ==> mdb.ids[k] == old(mdb.ids[k]))
+//@   ensures (forall p int :: 0 <= p && p < len(old(mdb.ids)) ==> old(mdb.ids[p]) != bodyid) ==> len(mdb.ids) == len(old(mdb.ids)) + 1
